@@ -18,6 +18,7 @@ type Ctx struct {
 
 	EffCount int // effects seen so far (index of the next effect)
 	PanicAt  int // effect index at which E panics (-1: never)
+	PanicNil bool // the injected panic carries the nil value (observable as such only with GODEBUG=panicnil=1)
 	Fired    bool
 
 	Fuel int // effect budget of the run; beyond it every E panics with OutOfFuel (0: unlimited)
@@ -72,6 +73,9 @@ func E(tag int, vals ...int) {
 	}
 	if idx == c.PanicAt {
 		c.Fired = true
+		if c.PanicNil {
+			panic(nil) //nolint: the point is a panic whose value is nil
+		}
 		panic(Injected{idx})
 	}
 	if c.Fuel > 0 && c.EffCount > c.Fuel {
